@@ -155,6 +155,8 @@ Letter(c) == c \in {"a", "b", "c", "d", "e", "f", "g", "h", "i", "j", "k", "l", 
 NameTok(tok) == Len(tok) > 0 /\ Letter(tok[1])
 \* C12-1: the reserved word `in` is accepted as the name of a command (`(cmd foo; in)`).
 Dev_InAsCommand(o) == MoreLenient(o) /\ o.mut > 0 /\ o.toks[o.mut] = <<"i", "n">>
+\* C12-8: likewise the reserved word `else` (`a && else b`, even `else` alone); then/elif/fi/do/done/esac are refused.
+Dev_ElseAsCommand(o) == MoreLenient(o) /\ o.mut > 0 /\ o.toks[o.mut] = <<"e", "l", "s", "e">>
 \* C12-2: `()` without a function name in front is accepted in every variant as an anonymous function
 \* (a zsh construct): `() (a=foo)`, `fn|() (cmd)`.
 Dev_AnonymousFunction(o) ==
@@ -168,9 +170,12 @@ Dev_ForVariableNotAName(o) ==
 \* compound command there (dash does not).
 CompoundStart(tok) == tok \in {<<"{">>, <<"(">>, <<"(", "(">>, <<"[", "[">>, <<"i", "f">>, <<"f", "o", "r">>, <<"c", "a", "s", "e">>,
                                <<"w", "h", "i", "l", "e">>, <<"u", "n", "t", "i", "l">>, <<"s", "e", "l", "e", "c", "t">>}
+\* In POSIX mode the same holds for a negated command as the body (`fn() ! (a)`): dash, which does take a simple
+\* command there, rejects the `!`; the case only became reachable when `!(` stopped being read as an extended glob (475d934).
 Dev_FunctionBodyNotCompound(o) ==
-  o.lang = "bash" /\ MoreLenient(o) /\ \E k \in DOMAIN o.toks : o.toks[k] = <<"(", ")">> /\
-      LET n == NextNonBlank(o.toks, k) IN n # 0 /\ ~CompoundStart(o.toks[n])
+  MoreLenient(o) /\ \E k \in DOMAIN o.toks : o.toks[k] = <<"(", ")">> /\
+      LET n == NextNonBlank(o.toks, k) IN n # 0 /\
+          (IF o.lang = "bash" THEN ~CompoundStart(o.toks[n]) ELSE o.lang = "posix" /\ o.toks[n] = <<"!">>)
 
 \* C12-5: POSIX mode reads `!(` as the start of an extended glob and refuses it; for dash it is a negated subshell.
 Dev_BangParenPosix(o) ==
@@ -194,6 +199,7 @@ Names(o) ==
   (IF Dev_BangParenPosix(o) THEN {"Dev_BangParenPosix"} ELSE {}) \cup
   (IF Dev_FdTakenAsRedirectTarget(o) THEN {"Dev_FdTakenAsRedirectTarget"} ELSE {}) \cup
   (IF Dev_InAsCommand(o) THEN {"Dev_InAsCommand"} ELSE {}) \cup
+  (IF Dev_ElseAsCommand(o) THEN {"Dev_ElseAsCommand"} ELSE {}) \cup
   (IF Dev_AnonymousFunction(o) THEN {"Dev_AnonymousFunction"} ELSE {}) \cup
   (IF Dev_ForVariableNotAName(o) THEN {"Dev_ForVariableNotAName"} ELSE {}) \cup
   (IF Dev_FunctionBodyNotCompound(o) THEN {"Dev_FunctionBodyNotCompound"} ELSE {}) \cup
@@ -211,7 +217,7 @@ Names(o) ==
   (IF LazyShell_Arithmetic(o) THEN {"LazyShell_Arithmetic"} ELSE {}) \cup
   (IF LazyShell_ParamExp(o) THEN {"LazyShell_ParamExp"} ELSE {})
 
-DevNames == {"Dev_InAsCommand", "Dev_AnonymousFunction", "Dev_ForVariableNotAName", "Dev_FunctionBodyNotCompound",
+DevNames == {"Dev_InAsCommand", "Dev_ElseAsCommand", "Dev_AnonymousFunction", "Dev_ForVariableNotAName", "Dev_FunctionBodyNotCompound",
              "Dev_BangParenPosix", "Dev_FdTakenAsRedirectTarget", "Dev_HashAfterExpansionInSubshell"}
 Agree(o) == (o.impl = "ok") = (o.shell = "ok")
 
